@@ -84,7 +84,7 @@ type accessCollector struct {
 }
 
 func (ac *accessCollector) add(fr fieldRef, kind byte, in ssa.Instruction, elem bool) {
-	ac.out = append(ac.out, access{T: fr.SName, F: fr.Field, Kind: kind, In: in, Base: fr.Base, Fresh: isFreshBase(fr.Base), Elem: elem})
+	ac.out = append(ac.out, access{T: fr.SName, F: fr.Field, Kind: kind, In: in, Base: fr.Base, Fresh: isFreshBase(fr.Base) || inPackageInit(in), Elem: elem})
 }
 
 // classifyAddrUses classifies every use of an address derived from field fr.
@@ -923,4 +923,11 @@ func c19CloseSend(c *Ctx, p *Prog, la *lockAnalysis) {
 			}
 		}
 	}
+}
+
+// inPackageInit: the instruction belongs to the package initialiser (the synthetic init that evaluates package-level
+// variable declarations): it runs once, before any goroutine of the program can touch the package.
+func inPackageInit(in ssa.Instruction) bool {
+	f := in.Parent()
+	return f != nil && f.Name() == "init" && f.Synthetic != "" && f.Signature.Recv() == nil
 }
